@@ -157,6 +157,10 @@ pub fn alphabet(g: &Geo, with_reopen: bool) -> Vec<Op> {
     ops.push(Op::Discard { off: bs, len: 2 * cs + bs });
     ops.push(Op::Discard { off: 0, len: 3 * cs });
     ops.push(Op::Discard { off: v - cs, len: 2 * cs });
+    if sl < tb && sl >= 2 * cs {
+        // starts in the middle of an L2 slice and ends in the next one
+        ops.push(Op::Discard { off: sl - cs, len: 2 * cs });
+    }
     ops.push(Op::Flush);
     ops.push(Op::Sync);
     ops.push(Op::Shrink);
